@@ -13,4 +13,5 @@ Extraction "sfmodel.ml"
   cbor_decode cbor_decode_all cbor_run cenc0 w_chunks
   run_parse run_chunks dec_next cparser0
   json_run jenc0 jrun_parse jrun_chunks jdec_next jparser0 sanitize utf8_valid nonfinite_b
+  p_parse p_write finalize up_parse up_write ufin jp_parse jp_write with_final
   ubj_img ubj_decode ubj_run uenc0 urun_parse urun_chunks udec_next uparser0 scalar_value.
